@@ -327,6 +327,7 @@ class Retarget:
 
     def __init__(self, ctx, fn: FunctionInfo, call: ast.Call) -> None:
         self.ctx = ctx
+        self.ctx = ctx
         self.fn = fn
         self.call = call
         self.cfg = ctx.cfg(fn)
@@ -358,6 +359,13 @@ class Retarget:
             d = real[0]
             ap = _assign_parts(d.stmt)
             v = ap[1] if ap else None
+            # list(<alias>) with `<alias> = <block>.<targets>` bound once just before: read through the alias
+            if isinstance(v, ast.Call) and isinstance(v.func, ast.Name) and v.func.id == "list" and len(v.args) == 1 and isinstance(v.args[0], ast.Name):
+                from .common import see_through
+
+                src_ = see_through(self.ctx, self.fn, v.args[0])
+                if isinstance(src_, ast.Attribute):
+                    v = ast.copy_location(ast.Call(func=v.func, args=[src_], keywords=[]), v)
             if isinstance(v, ast.Call) and isinstance(v.func, ast.Name) and v.func.id == "list" and len(v.args) == 1 and isinstance(v.args[0], ast.Attribute):
                 self.Ldef = d
                 self.src_block = v.args[0].value
@@ -503,7 +511,10 @@ def store4(ctx) -> List[Ob]:
                 continue
             from .ctrl import _guard_conditions
 
-            gtxt = " & ".join(A.cond_key(t, pol) for t, pol in reversed(_guard_conditions(fn.node, stmt)[:3]))
+            # `if S:` around `for x in S:` adds nothing for what is inside the loop (an empty S runs no iteration)
+            loop_iters = {A.unparse(a.iter) for a in A.ancestors(stmt) if isinstance(a, ast.For)}
+            gconds = [(t, pol) for t, pol in _guard_conditions(fn.node, stmt) if not (pol and t in loop_iters)]
+            gtxt = " & ".join(A.cond_key(t, pol) for t, pol in reversed(gconds[:3]))
             mkey = key + " :: " + A.alpha_key(stmt) + (" under " + gtxt if kind != "store" and gtxt else "")
             mwhere = ctx.where(fn, stmt)
             if kind == "store":
